@@ -445,6 +445,15 @@ class PE:
         if c is None or len([s for s in succ if s is not None]) < 2:
             return [(s, bind, sure) for s in succ if s is not None]
         res = []
+        # ++/-- inside the condition take effect on both edges (the condition itself sees the value before a post-increment)
+        after = self._apply_nested_incs({"k": "cast", "e": c}, bind) if any(
+            x.get("k") == "un" and x.get("op") in ("post++", "post--", "pre++", "pre--") for x, _ in walk(c)) else bind
+        if after is not bind:
+            return [(s_, after if b_ is bind else b_, u_) for (s_, b_, u_) in self._branch0(fn, blk, succ, c, bind, sure, depth)]
+        return self._branch0(fn, blk, succ, c, bind, sure, depth)
+
+    def _branch0(self, fn, blk, succ, c, bind, sure, depth):
+        res = []
         for v, s2 in self.evals(c, bind, depth):
             if v is None:
                 for s in succ:
@@ -503,6 +512,7 @@ class PE:
             if len(tg) != 1 or not all(x[2] for x in nx):
                 return events, "undecided:branch at line %s" % ((blk.cond or {}).get("ln"))
             bid = nx[0][0]
+            b = nx[0][1]                            # ++/-- inside the condition
             if bid == fn.exit:
                 return events, None
         return events, "undecided:too many steps"
